@@ -8,7 +8,7 @@ props = [json.loads(l) for l in open(os.path.join(V, "properties.jsonl"))]
 
 CLAIMS = {
  "C01": ("opcode exhaustiveness (every emittable opcode has an advancing interpreter arm, none unfinished); rest-argument collapse resets the argument count at every call path; call-site rewrites to fixed-arity opcodes test the arity like their siblings; inliner consults the assigned flag; the walkers that collect assignments reach every evaluated child", "exhaustiveness / table agreement over MIR match arms + backward value-flow slices + sibling agreement + type-directed traversal completeness (every-path)"),
- "C02": ("no emittable opcode reaches a panicking JIT translator arm; scanners honour the trampoline header; only CALLPRIMITIVE bakes a global in; Int tags only on immediates; every fallible helper emission is followed by a deopt check (fixpoint over translator methods); argument counts without a handler are gated before translation; JIT helpers never panic on a primitive's Err", "table agreement + must-pass-through + interprocedural name resolution over MIR (JIT symbol table, name tables)"),
+ "C02": ("no emittable opcode reaches a panicking JIT translator arm; scanners honour the trampoline header; only CALLPRIMITIVE bakes a global in; Int tags only on immediates; every fallible helper emission is followed by a deopt check (fixpoint over translator methods); argument counts without a handler are gated before translation; JIT helpers never panic on a primitive's Err; pending reads of a slot are all reified before it is moved", "table agreement + must-pass-through + interprocedural name resolution over MIR (JIT symbol table, name tables)"),
  "C03": ("&mut to shared payload only through the uniqueness-checked API, which really tests uniqueness on every path; no unchecked escape hatches; the JIT reifies all pending reads of a slot before moving it", "who-may-call + dominator / every-path checks over MIR + compile_fail witnesses"),
  "C04": ("type-directed tracing completeness of all three markers, leaf-filter soundness, root-set sibling agreement, in-flight values rooted, unmark=>full-mark typestate, clean-slate full marks, who-may-clear mark bits", "type-directed field-coverage + must-pass-through + value flow over MIR"),
  "C05": ("owner-only access to the non-atomic biased counter, deallocation control-dependent on a zero test, shared word only through CAS whose retry recomputes and is free of side effects, unique access through has_unique_ref, hand-over protocol", "who-may-access + dominator checks over MIR of steel-rc + compile_fail witness"),
@@ -17,9 +17,9 @@ CLAIMS = {
  "C08": ("frame pop / bulk discard => continuation marks closed with the mark still attached (typestate); reinstating decided by the strong count only; thread fork closes all marks; handler unwinding shape; dynamic-wind / do-wind / call/cc wrapper effect order (Scheme library source)", "typestate / no-site-between over MIR + syntax-tree rule over parameters.scm"),
  "C09": ("tail-call opcodes never push a frame (through helpers ≤ 3); every frame push is depth-checked; CallKind->opcode class agreement; tail path and push path separated by one decision", "call-graph reachability + table agreement over MIR"),
  "C10": ("no silently overflowing machine arithmetic in the script-reachable numeric surface; checked fast paths with big-number promotion; canonical bignum / rational construction; float->integer casts range-checked; binary numeric arms read both operands", "operation census with guard-idiom discharge + simulated match decision trees over MIR"),
- "C11": ("eq/hash class agreement per kind; nested equality arms = top-level arms; cross-side membership; visited set keyed on both operands and never turning a revisit into inequality; order-independent hashing of hash collections; hash-union bias in every ownership arm", "sibling arm classification + field-sensitive value flow over MIR"),
+ "C11": ("eq/hash class agreement per kind; nested equality arms = top-level arms; cross-side membership; visited set keyed on both operands and never turning a revisit into inequality; order-independent hashing of hash collections; hash-union bias in every ownership arm; identity fields fed into Hash are compared by equality", "sibling arm classification + field-sensitive value flow over MIR"),
  "C12": ("reader recursion (call-graph cycles) reachable from the reader entry points; budget of byte-offset slicing sites in the reader", "SCC over the resolved call graph + confirmed-instance census"),
- "C14": ("a required module is compiled only after the compiled-module / file-metadata tables were consulted; compile_module registers the module; failed compilation restores the module table; unused-import pruning walks every module macro's templates. NOT decided: which names a module graph exposes", "dominator + every-path checks over MIR"),
+ "C14": ("a required module is compiled only after the compiled-module / file-metadata tables were consulted; compile_module registers the module; failed compilation restores the module table; unused-import pruning walks every module macro's templates; module identities are canonical paths. NOT decided: which names a module graph exposes", "dominator + every-path checks over MIR"),
  "C15": ("publish/retract pairing of the safepoint context; who may dereference a foreign thread; stop/resume reach every controller; safepoints enabled for every new thread; every park re-checks in a loop", "pairing + who-may-deref + on-a-cycle checks over MIR"),
  "C16": ("blocking primitives only inside safepoints; native loop back-edges poll; waits have a liveness exit; the world-stop mutex is only waited for inside a safepoint; parked threads are published", "who-may-call + derived lock set + reachability over MIR"),
  "C17": ("every dispatch cycle polls the interrupt flag and propagates it; native back-edges poll; waits break on Interrupted; only the host / thread-resume clear an interrupt, the stop protocol compare-exchanges", "every-cycle-through + who-may-call + dominators over MIR"),
